@@ -85,10 +85,22 @@ class ClassWorld(World):
         if it.ctx.branch(b, f"call-out #{k} raises"):
             raise PyExc(SV(z3.Const(f"callout_{k}_exc", smt.Val), "val", tag="exc"))
 
+    def setattr(self, it, o, name, value):
+        if o.kind == "symref":
+            # property assignment on a collaborator (e.g. `self._subscription.disposable = d`): a call-out
+            self.callout(it, ("one", o.attrs["term"], (("set:" + name, (self.h.lift(it, value),)),)))
+            return
+        super().setattr(it, o, name, value)
+
     def call(self, it, o, method, args, kwargs):
         if o.kind == "symref":
             payload = tuple(self.h.lift(it, a) for a in args)
             self.callout(it, ("one", o.attrs["term"], ((method, payload),)))
+            return None
+        if o.kind == "callback":
+            # a user callback held by the object: a call-out that may raise (its result is not used)
+            payload = tuple(self.h.lift(it, a) for a in args)
+            self.callout(it, ("one", it.to_val(o), (("call", payload),)))
             return None
         if o.kind == "lock":
             return None
@@ -201,6 +213,10 @@ class ClassHarness:
                     target.fields[name] = self.make_arg(it, ctx, f"{tag}{name}", "exc")
             elif kind == "callback":
                 target.fields[name] = Opaque("callback", name)
+            elif kind.startswith("ref:"):
+                target.fields[name] = self.w.new_ref(it, f"{tag}{name}", kind[4:])
+            elif kind == "shared":
+                target.fields[name] = None
             elif kind in ("int", "bool", "val"):
                 target.fields[name] = ctx.fresh(f"{tag}{name}", kind)
             elif kind == "nat":
@@ -229,6 +245,8 @@ class ClassHarness:
         speccls = it.module_get(smod, scls)
         s = self.s = Obj(speccls)
         self.init_fields(it, ctx, s, c.spec_fields, "s_")
+        for sf, f in getattr(c, "shared", {}).items():
+            s.fields[sf] = o.fields[f]  # collaborators are the same objects on both sides
         uid = f"{c.uid}.{mname}"
         inv0 = self.inv_term(it, o.fields, s.fields)
         ctx.assume(inv0 if not isinstance(inv0, bool) else z3.BoolVal(inv0))
@@ -243,8 +261,9 @@ class ClassHarness:
         # real code
         w.side = "impl"
         impl_exc = None
+        impl_ret = spec_ret = None
         try:
-            it.eval(ast.parse(m["call"], mode="eval").body, env)
+            impl_ret = it.eval(ast.parse(m["call"], mode="eval").body, env)
         except PyExc as e:
             impl_exc = e.value
         for v in w.violations:
@@ -257,7 +276,7 @@ class ClassHarness:
         if sm is None:
             raise Unsupported(f"spec has no method {m.get('spec', mname)}")
         try:
-            it.call(BoundMethod(s, sm), list(args.values()), {})
+            spec_ret = it.call(BoundMethod(s, sm), list(args.values()), {})
         except PyExc as e:
             spec_exc = e.value
         # exceptions
@@ -271,6 +290,9 @@ class ClassHarness:
             self.fail(ctx, uid + "/same-exception", f"real code raises {exc_name(impl_exc)}, spec {exc_name(spec_exc)}", kind="exc")
             return
         self.record(ctx, uid + "/same-exception", True, kind="exc")
+        if spec_ret is not None and impl_exc is None:
+            r = natives._eq(it, impl_ret, spec_ret) if impl_ret is not None else False
+            self.record(ctx, uid + "/same-result", r, kind="post", detail=f"real returns {impl_ret!r}, spec {spec_ret!r}")
         # events
         li, ls = w.log["impl"], w.log["spec"]
         if len(li) != len(ls) or any(a[0] != b[0] or [x[0] for x in a[2]] != [x[0] for x in b[2]] for a, b in zip(li, ls)):
